@@ -110,6 +110,10 @@ impl Report {
     pub fn num_violations(&self) -> usize {
         self.violations.len()
     }
+    /// total number of refuting observations (a signature seen n times counts n times)
+    pub fn violation_occurrences(&self) -> u64 {
+        self.violations.values().map(|v| v.1).sum()
+    }
     pub fn to_json(&self) -> Value {
         let violations: Vec<Value> = self
             .violations
